@@ -36,16 +36,25 @@ func (schemas Schemas) Locate(pkg string) (*Schema, bool) {
 }
 
 func (schemas Schemas) ResolveToType(def Type) Type {
-	if !def.IsRef() {
-		return def
+	// references already followed: aliases can form cycles (`A: B`, `B: A`)
+	visited := make(map[string]struct{})
+
+	for def.IsRef() {
+		ref := def.AsRef()
+		if _, seen := visited[ref.String()]; seen {
+			return def
+		}
+		visited[ref.String()] = struct{}{}
+
+		resolved, found := schemas.LocateObjectByRef(ref)
+		if !found {
+			return def
+		}
+
+		def = resolved.Type
 	}
 
-	resolved, found := schemas.LocateObjectByRef(def.AsRef())
-	if !found {
-		return def
-	}
-
-	return schemas.ResolveToType(resolved.Type)
+	return def
 }
 
 func (schemas Schemas) LocateObject(pkg string, name string) (Object, bool) {
@@ -197,16 +206,25 @@ func (schema *Schema) HasObject(name string) bool {
 }
 
 func (schema *Schema) Resolve(typeDef Type) (Type, bool) {
-	if !typeDef.IsRef() {
-		return typeDef, true
+	// references already followed: aliases can form cycles (`A: B`, `B: A`)
+	visited := make(map[string]struct{})
+
+	for typeDef.IsRef() {
+		ref := typeDef.AsRef()
+		if _, seen := visited[ref.String()]; seen {
+			return Type{}, false
+		}
+		visited[ref.String()] = struct{}{}
+
+		referredObj, found := schema.LocateObject(ref.ReferredType)
+		if !found {
+			return Type{}, false
+		}
+
+		typeDef = referredObj.Type
 	}
 
-	referredObj, found := schema.LocateObject(typeDef.AsRef().ReferredType)
-	if !found {
-		return Type{}, false
-	}
-
-	return schema.Resolve(referredObj.Type)
+	return typeDef, true
 }
 
 type SchemaMeta struct {
